@@ -40,6 +40,7 @@ func main() {
 	logp := fs.String("log", "", "current-case log file")
 	verbose := fs.Bool("v", false, "verbose")
 	fs.StringVar(&flagMode, "mode", "", "sub-mode of the check")
+	phase := fs.String("phase", "", "plan phase (salts the case generator)")
 	fs.Parse(os.Args[2:])
 
 	f, ok := checks[prop]
@@ -52,6 +53,7 @@ func main() {
 	c.LogPath = *logp
 	c.Verbose = *verbose
 	c.Race = raceEnabled
+	c.Phase = *phase
 	f(c)
 	if err := c.Finish(); err != nil {
 		fmt.Fprintln(os.Stderr, "finish:", err)
